@@ -32,8 +32,16 @@ PeerOK == done => OutSE = [i \in 1..Len(Traces[tid].peer) |-> [start |-> Traces[
 C08Obs == (Online => C08) /\ PeerOK /\ eos <= 1 /\ late = 0
 \* the monitors, evaluated right after every hand-over and at the end (chk); each failure is recorded per trace
 Bad(b, ok) == ok \/ TLCSet(b + tid, 1)
-Mon == /\ (chk => /\ Bad(100000, C01) /\ Bad(200000, C02) /\ Bad(300000, C03) /\ Bad(400000, C04)
-                  /\ Bad(500000, C08Obs) /\ Bad(600000, C04Cover /\ C04First /\ C04NoInvent))
+\* Tokens are never changed once handed over, so each per-token formula (the very conjuncts of C01..C08) is evaluated once, when
+\* its token arrives; the statements about the whole run (C04, the C08 clauses on end-of-stream, peers) when the run is over.
+Last == Len(out)
+TokOK(F(_)) == Last = 0 \/ F(Last)
+C08Run == eos <= 1 /\ late = 0 /\ (done => eos = 1 /\ (Online => \A k \in 1..Last : out[k].fl = 1 => k = Last)) /\ PeerOK
+Mon == /\ (chk => /\ Bad(100000, TokOK(C01Tok)) /\ Bad(200000, TokOK(C02Tok))
+                  /\ Bad(300000, (TLCGet(100000 + tid) = 0) => TokOK(C03Tok))                   \* C03 presupposes exact slices (C01)
+                  /\ Bad(500000, (Online => TokOK(C08Tok)) /\ C08Run)
+                  /\ (done => /\ Bad(400000, C04)
+                              /\ Bad(600000, (TLCGet(100000 + tid) = 0) => (C04Cover /\ C04First /\ C04NoInvent))))
        /\ TLCSet(tid, l)
 Bases == {0, 100000, 200000, 300000, 400000, 500000, 600000, 700000}
 ASSUME \A t \in 1..Len(Traces) : \A b \in Bases : TLCSet(b + t, 0)
